@@ -234,9 +234,18 @@ func startLifetime(n int) (*pipeline.Pipeline, *file.Plugin) {
 	return p, plug
 }
 
+// promised says whether the property promises delivery of the line: in truncation histories only what was written
+// after the truncation (lines cut away before file.d got to read them are gone by the user's own doing).
+func promised(id string) bool {
+	if w.sc.truncated {
+		return w.afterTrunc != nil && w.afterTrunc[id]
+	}
+	return true
+}
+
 func deliveredAll() bool {
 	for _, id := range w.written {
-		if w.delivered[1][id]+w.delivered[2][id] == 0 {
+		if promised(id) && w.delivered[1][id]+w.delivered[2][id] == 0 {
 			return false
 		}
 	}
@@ -360,7 +369,7 @@ func check(sc scen, x *vsched.Exec) []vexplore.Finding {
 	var lost []string
 	for _, id := range w.written {
 		if w.delivered[1][id]+w.delivered[2][id] == 0 {
-			if sc.truncated && !w.afterTrunc[id] {
+			if !promised(id) {
 				continue // only lines written after the truncation are promised
 			}
 			lost = append(lost, id)
@@ -451,7 +460,7 @@ func streamsOf(sc scen) int {
 func missing() string {
 	var m []string
 	for _, id := range w.written {
-		if w.delivered[1][id]+w.delivered[2][id] == 0 {
+		if promised(id) && w.delivered[1][id]+w.delivered[2][id] == 0 {
 			m = append(m, id)
 		}
 	}
